@@ -179,10 +179,63 @@ def varint_facts(ctx) -> Dict[str, Any]:
     return facts
 
 
+def _two_phase_loop(mod, lv, loops) -> Optional[Dict[str, Any]]:
+    """the decoder written as two loops: one that reads bytes and appends the 7-bit group of each to a local list L (exactly one
+    unconditional `L.append(..)` per iteration, after the read; `L = []` before), and one that folds
+    `for shift, g in zip(count(a, s), L): result |= g << shift`.  The i-th group is shifted by a + s*i, as if shift were the
+    induction variable of the reading loop; a guard `if c * len(L) >= K: raise` / `len(L) >= K` at the top of the reading loop
+    limits the bytes read to ceil(K / c)."""
+    read_lp = [l for l in loops if any(isinstance(c, ast.Call) and isinstance(c.func, ast.Attribute) and c.func.attr in ("read", "read1") for c in ast.walk(l))]
+    fold_lp = [l for l in loops if l not in read_lp]
+    if len(read_lp) != 1 or len(fold_lp) != 1 or any(l2 in list(ast.walk(l1)) for l1 in loops for l2 in loops if l1 is not l2):
+        return None
+    rl, fl = read_lp[0], fold_lp[0]
+    if not (isinstance(fl, ast.For) and isinstance(fl.iter, ast.Call) and isinstance(fl.iter.func, ast.Name) and fl.iter.func.id == "zip" and len(fl.iter.args) == 2
+            and isinstance(fl.iter.args[0], ast.Call) and ast.unparse(fl.iter.args[0].func) in ("count", "itertools.count") and isinstance(fl.iter.args[1], ast.Name)
+            and isinstance(fl.target, ast.Tuple) and len(fl.target.elts) == 2 and all(isinstance(e, ast.Name) for e in fl.target.elts)):
+        return None
+    L = fl.iter.args[1].id
+    try:
+        cargs = [fold(a, mod.consts) for a in fl.iter.args[0].args]
+    except _Unfoldable:
+        return None
+    start, step = (cargs + [0, 1][len(cargs):])[:2]
+    var = fl.target.elts[0].id
+    if not any(isinstance(n, ast.BinOp) and isinstance(n.op, ast.LShift) and isinstance(n.right, ast.Name) and n.right.id == var for n in ast.walk(fl)):
+        return None
+    appends = [n for n in ast.walk(lv) if isinstance(n, ast.Call) and isinstance(n.func, ast.Attribute) and isinstance(n.func.value, ast.Name) and n.func.value.id == L]
+    top = [st for st in rl.body if isinstance(st, ast.Expr) and isinstance(st.value, ast.Call) and st.value in appends and st.value.func.attr == "append"]
+    inits = [n for n in ast.walk(lv) if isinstance(n, (ast.Assign, ast.AnnAssign)) and isinstance(n.targets[0] if isinstance(n, ast.Assign) else n.target, ast.Name)
+             and (n.targets[0] if isinstance(n, ast.Assign) else n.target).id == L]
+    if len(appends) != 1 or len(top) != 1 or len(inits) != 1 or not (isinstance(inits[0].value, ast.List) and not inits[0].value.elts) or inits[0] in list(ast.walk(rl)):
+        return None
+    # nothing may skip the append once the byte was read: no continue in the reading loop
+    if any(isinstance(n, ast.Continue) for n in ast.walk(rl)):
+        return None
+    guard = None
+    for n in rl.body:
+        if isinstance(n, ast.If) and any(isinstance(b, ast.Raise) for b in n.body) and rl.body.index(n) < rl.body.index(top[0]):
+            t = simplify(from_ast(n.test, lambda nm: C(mod.consts[nm]) if nm in mod.consts and isinstance(mod.consts[nm], int) else None))
+            ln = ("call", N("len"), (N(L),), ())
+            if t[0] == "op" and t[1] == "not" and t[2][0] == "op" and t[2][1] == "<" and len(t[2]) == 4 and t[2][3][0] == "c" and isinstance(t[2][3][1], int):
+                lhs, K = t[2][2], t[2][3][1]
+                if lhs == ln:
+                    guard = ("ge", K, n, "len")
+                elif lhs[0] == "op" and lhs[1] == "*" and len(lhs) == 4 and ln in (lhs[2], lhs[3]):
+                    c = lhs[3] if lhs[2] == ln else lhs[2]
+                    if c[0] == "c" and isinstance(c[1], int) and c[1] > 0:
+                        guard = ("ge", math.ceil(K / c[1]), n, "len")
+    return {"shape": "count", "var": var, "start": start, "step": step, "loop": rl, "guard": guard, "fold_loop": fl}
+
+
 def _load_loop(mod, lv) -> Dict[str, Any]:
     """induction variable, step, guard constant of the decode loop"""
     out: Dict[str, Any] = {"shape": None}
     loops = [n for n in ast.walk(lv) if isinstance(n, (ast.For, ast.While))]
+    if len(loops) == 2:
+        two = _two_phase_loop(mod, lv, loops)
+        if two is not None:
+            return two
     if len(loops) != 1:
         return out
     lp = loops[0]
